@@ -55,6 +55,9 @@ PROBES = [
      'void out_l(long);\nint en = 1, perm = 6, z = 0;\ndouble d = 0.5;\nint *p = &en;\nint main(void)\n{\n\tint n = 0;\n\tn += en && (perm & 4);\n\tout_l(n);\n\tn += z || (perm | 8);\n\tout_l(n);\n'
      '\tout_l(en && perm);\n\tout_l((perm & 2) && (perm & 4));\n\tout_l(z || (perm ^ 6));\n\tout_l(d && p);\n\tout_l((en && (perm & 4)) + (z || (perm & 2)) * 10);\n\tout_l(!(perm & 4) || (perm << 3));\n'
      '\tout_l((_Bool)(perm & 4) && (perm > 5));\n\tout_l(3 * (en && (perm - 1)));\n\treturn 0;\n}\n'),
+    ('func-name-contents', '__func__ is an array holding the function name and its terminating null character',
+     'void out_l(long);\nint len(const char *s) { int n = 0; while (s[n]) n++; return n; }\nint longer_name_here(void) { return len(__func__) * 100 + sizeof __func__; }\n'
+     'int main(void)\n{\n\tconst char *p = __func__;\n\tout_l(len(p));\n\tout_l(p[4]);\n\tout_l(sizeof __func__);\n\tout_l(longer_name_here());\n\tout_l(__func__[0] + __func__[3]);\n\treturn 0;\n}\n'),
     ('switch-insertion-orders', 'a switch reaches exactly the matching case whatever the order of its labels (every AVL rotation shape)',
      'void out_l(long);\n' + ''.join(
          'long sw%d(long v)\n{\n\tswitch (v) {\n%s\tdefault: return -1;\n\t}\n}\n' % (k, ''.join('\tcase %d: return %d;\n' % (c, c * 3 + k) for c in order))
